@@ -14,6 +14,9 @@ from mc.lib import records
 
 ID = 'C10'
 LEVEL = 'model_checking'
+# fewer non-trivial cases than this share of all cases means that the
+# exploration has become vacuous (reported as INTERNAL-ERROR, never as a pass)
+MIN_NONTRIVIAL_FRACTION = 0.2
 RULE = (
     'Every file triple of the bounded family is loaded by the real '
     'load_data (in-memory database) or `spowtd load` (files): rainfall of n '
